@@ -14,8 +14,7 @@ import (
 // C13
 // ---------------------------------------------------------------------------
 
-func runC13(c *CaseCtx) CaseResult {
-	var res CaseResult
+func runC13(c *CaseCtx) (res CaseResult) {
 	r := caseRand(c.Seed, "C13", c.Idx)
 	// base scenario over T0..T3 (+ interfaces), hopeless parameter over T4/T5
 	g := defaultCfg
@@ -312,8 +311,7 @@ func init() {
 	})
 }
 
-func runC06(c *CaseCtx) CaseResult {
-	var res CaseResult
+func runC06(c *CaseCtx) (res CaseResult) {
 	r := caseRand(c.Seed, "C06", c.Idx)
 	if r.Intn(100) < 12 {
 		return runC06Malformed(c, r)
@@ -400,8 +398,7 @@ func runC06(c *CaseCtx) CaseResult {
 }
 
 // runC06Malformed: malformed options must be ignored or reported, never panic.
-func runC06Malformed(c *CaseCtx, r *rand.Rand) CaseResult {
-	var res CaseResult
+func runC06Malformed(c *CaseCtx, r *rand.Rand) (res CaseResult) {
 	s, _ := genExact(r, r.Intn(2) == 0)
 	kind := r.Intn(9)
 	kinds := []string{"nil-option", "named-nil", "typed-nil", "converterfunc-nil", "converter-42", "converter-nil", "gen-error", "gen-nil-nil", "newfunc-nonfunc"}
